@@ -267,6 +267,63 @@ def f_replace(src, dst, *a, **k):
         V.files[vd] = V.files.pop(vs)
 
 
+class _DirEntry:
+    def __init__(self, parent, name, isdir):
+        self.name = name
+        self.path = parent.rstrip("/") + "/" + name
+        self._isdir = isdir
+
+    def is_dir(self, follow_symlinks=True):
+        return self._isdir
+
+    def is_file(self, follow_symlinks=True):
+        return not self._isdir
+
+    def is_symlink(self):
+        return False
+
+    def stat(self, follow_symlinks=True):
+        return f_stat(self.path)
+
+    def inode(self):
+        return 0
+
+    def __fspath__(self):
+        return self.path
+
+
+class _ScanDir:
+    def __init__(self, entries):
+        self.entries = entries
+
+    def __iter__(self):
+        return iter(self.entries)
+
+    def __enter__(self):
+        return self
+
+    def __exit__(self, *a):
+        return False
+
+    def close(self):
+        pass
+
+
+def f_scandir(p="."):
+    vp = virt(p)
+    if vp is None or V is None:
+        return REAL["scandir"](p)
+    names = f_listdir(vp)
+    return _ScanDir([_DirEntry(vp, n, (vp.rstrip("/") + "/" + n) not in V.files) for n in names])
+
+
+def f_lstat(p, *a, **k):
+    vp = virt(p)
+    if vp is None or V is None:
+        return REAL["lstat"](p, *a, **k)
+    return f_stat(p)
+
+
 def f_fsync(fd):
     if isinstance(fd, int):
         return REAL["fsync"](fd)
@@ -284,7 +341,8 @@ def install(world):
         return
     REAL.update(stat=os.stat, open=builtins.open, ioopen=io.open, listdir=os.listdir, remove=os.remove,
                 unlink=os.unlink, utime=os.utime, touch=pathlib.Path.touch, mkdir=os.mkdir,
-                makedirs=os.makedirs, replace=os.replace, rename=os.rename, fsync=os.fsync)
+                makedirs=os.makedirs, replace=os.replace, rename=os.rename, fsync=os.fsync,
+                scandir=os.scandir, lstat=os.lstat)
     os.stat = f_stat
     builtins.open = f_open
     io.open = f_open
@@ -297,6 +355,8 @@ def install(world):
     os.makedirs = f_makedirs
     os.replace = f_replace
     os.rename = f_replace
+    os.scandir = f_scandir
+    os.lstat = f_lstat
     _INSTALLED[0] = True
 
 
@@ -317,4 +377,6 @@ def uninstall():
     os.makedirs = REAL["makedirs"]
     os.replace = REAL["replace"]
     os.rename = REAL["rename"]
+    os.scandir = REAL["scandir"]
+    os.lstat = REAL["lstat"]
     _INSTALLED[0] = False
